@@ -7,6 +7,19 @@ use std::fmt::Write as _;
 struct G {
     r: Rng,
     defs: Vec<Def>,
+    /// scope ids handed out in the current case; those of component-local signals
+    next_sid: u32,
+    sig_sids: Vec<u32>,
+}
+
+/// the component-local state visible at the place being generated (one effect level: see `xview`)
+#[derive(Clone, Default)]
+struct Lc {
+    /// innermost last; `true` = memo
+    locals: Vec<bool>,
+    /// memos already read by an effect expression or a `Show` condition (each at most once)
+    used: Vec<bool>,
+    in_row: bool,
 }
 
 impl G {
@@ -124,6 +137,199 @@ impl G {
         self.view(depth)
     }
 
+    // ---------------------------------------------------------------- component-local state
+    //
+    // Generated views with component-local state stay inside the class in which the real code cannot
+    // touch a disposed value (a read of a disposed arena value panics; see props/C04.known F-C04-2):
+    //  * a body's state is read at the effect level of the body only (`view_ok`), so its readers are
+    //    dropped together with it …
+    //  * … except readers kept alive by the task of a dropped outer effect: those must never run again,
+    //    so an effect expression that reads component-local state reads nothing else that can change
+    //    (no program signal or memo), each component-local memo has at most one reader among effect
+    //    expressions and `Show` conditions (a second one could be marked dirty by the first one's
+    //    recomputation), and a write to a component-local signal is followed by `idle`.
+    // Bodies of component-local memos are free to read program nodes (that is the point: a row-local memo
+    // over an outer signal).
+
+    /// an expression over component-local state, the row key and literals; `None` if nothing is readable
+    fn lexpr(&mut self, lc: &mut Lc) -> Option<Expr> {
+        let n = lc.locals.len();
+        let mut avail: Vec<usize> = (0..n).filter(|i| !(lc.locals[*i] && lc.used[*i])).collect();
+        if avail.is_empty() {
+            return None;
+        }
+        let i = *self.r.pick(&avail);
+        avail.retain(|x| *x != i);
+        lc.used[i] = true;
+        let a = Expr::Loc(n - 1 - i);
+        let other = |g: &mut G, lc: &mut Lc, avail: &Vec<usize>| -> Expr {
+            if !avail.is_empty() && g.r.chance(1, 2) {
+                let j = *g.r.pick(avail);
+                lc.used[j] = true;
+                Expr::Loc(lc.locals.len() - 1 - j)
+            } else if lc.in_row && g.r.chance(1, 2) {
+                Expr::Key
+            } else {
+                Expr::Lit(g.r.below(4) as i64 - 1)
+            }
+        };
+        Some(match self.r.below(5) {
+            0 | 1 => a,
+            2 => Expr::Add(Box::new(a), Box::new(other(self, lc, &avail))),
+            3 => Expr::Mulc(self.r.below(3) as i64 - 1, Box::new(a)),
+            _ => {
+                let t = other(self, lc, &avail);
+                Expr::Ite(Box::new(a), Box::new(t), Box::new(Expr::Lit(self.r.below(3) as i64)))
+            }
+        })
+    }
+
+    /// the expression of a dynamic part: over component-local state (when there is some) or over the program
+    fn xexpr(&mut self, lc: &mut Lc) -> Expr {
+        if self.r.chance(2, 3) {
+            if let Some(e) = self.lexpr(lc) {
+                return e;
+            }
+        }
+        let e = self.dyn_expr();
+        if lc.in_row && self.r.chance(1, 3) { Expr::Add(Box::new(e), Box::new(Expr::Key)) } else { e }
+    }
+
+    /// body of a component-local memo: program nodes, outer component-local state, the key
+    fn mexpr(&mut self, lc: &Lc) -> Expr {
+        let mut parts: Vec<Expr> = vec![];
+        if self.r.chance(4, 5) {
+            parts.push(self.dyn_expr());
+        }
+        if !lc.locals.is_empty() && self.r.chance(1, 2) {
+            parts.push(Expr::Loc(self.r.below(lc.locals.len())));
+        }
+        if lc.in_row && self.r.chance(1, 2) {
+            parts.push(Expr::Key);
+        }
+        if parts.is_empty() {
+            parts.push(self.dyn_expr());
+        }
+        let mut e = parts.pop().unwrap();
+        while let Some(p) = parts.pop() {
+            e = if self.r.chance(3, 4) { Expr::Add(Box::new(p), Box::new(e)) } else { Expr::Ite(Box::new(p), Box::new(e), Box::new(Expr::Lit(1))) };
+        }
+        e
+    }
+
+    fn xattrs(&mut self, lc: &mut Lc) -> Vec<AttrD> {
+        let mut out = vec![];
+        let mut used: Vec<(&str, &str)> = vec![];
+        for _ in 0..self.r.below(3) {
+            let a = match self.r.below(4) {
+                0 => AttrD::Stat(*self.r.pick(STAT_NAMES), self.word()),
+                1 => AttrD::Dyn(*self.r.pick(DYN_NAMES), self.xexpr(lc)),
+                2 => AttrD::Cls(*self.r.pick(CLS_NAMES), self.xexpr(lc)),
+                _ => AttrD::Sty(*self.r.pick(STY_NAMES), self.xexpr(lc)),
+            };
+            let key = match &a {
+                AttrD::Stat(n, _) | AttrD::Dyn(n, _) => ("a", *n),
+                AttrD::Cls(n, _) => ("c", *n),
+                AttrD::Sty(n, _) => ("s", *n),
+            };
+            if !used.contains(&key) {
+                used.push(key);
+                out.push(a);
+            }
+        }
+        out
+    }
+
+    fn xlists(&mut self) -> Vec<Vec<u32>> {
+        let n = self.r.range(2, 4);
+        let sorted = self.r.chance(3, 4);
+        (0..n).map(|_| self.keys(sorted)).collect()
+    }
+
+    /// a new region (branch of an `Either` / `Show`, row of a `<For>`, the mounted view): its own bodies only
+    fn xregion(&mut self, depth: usize, in_row: bool) -> ViewD {
+        let mut lc = Lc { in_row, ..Default::default() };
+        // most regions start with a body of their own
+        if self.r.chance(3, 4) {
+            return self.xscope(depth, &mut lc);
+        }
+        self.xview(depth, &mut lc)
+    }
+
+    fn xscope(&mut self, depth: usize, lc: &mut Lc) -> ViewD {
+        let sid = self.next_sid;
+        self.next_sid += 1;
+        let d = if self.r.chance(2, 3) {
+            LDef::Memo(self.mexpr(lc))
+        } else {
+            self.sig_sids.push(sid);
+            LDef::Sig(self.r.below(4) as i64 - 1)
+        };
+        lc.locals.push(matches!(d, LDef::Memo(_)));
+        lc.used.push(false);
+        // the body's view reads what it created
+        let kid = match self.r.below(4) {
+            0 => self.xview(depth, lc),
+            1 => {
+                let e = self.lexpr(lc).unwrap_or(Expr::Lit(0));
+                ViewD::Seq(Box::new(ViewD::DynText(e)), Box::new(self.xview(depth.saturating_sub(1), lc)))
+            }
+            2 => {
+                let c = self.lexpr(lc).unwrap_or(Expr::Lit(1));
+                let (a, b) = (self.xregion(depth.saturating_sub(1), false), self.xregion(depth.saturating_sub(1), false));
+                if self.r.chance(2, 3) { ViewD::Show(c, Box::new(a), Box::new(b)) } else { ViewD::Either(c, Box::new(a), Box::new(b)) }
+            }
+            _ => ViewD::DynText(self.lexpr(lc).unwrap_or(Expr::Lit(0))),
+        };
+        lc.locals.pop();
+        lc.used.pop();
+        ViewD::Scope(sid, d, Box::new(kid))
+    }
+
+    /// a view at one effect level with the component-local state `lc` in sight
+    fn xview(&mut self, depth: usize, lc: &mut Lc) -> ViewD {
+        if depth == 0 {
+            return match self.r.below(4) {
+                0 => ViewD::Text(self.word()),
+                1 => ViewD::Unit,
+                _ => ViewD::DynText(self.xexpr(lc)),
+            };
+        }
+        match self.r.below(14) {
+            0 => ViewD::Text(self.word()),
+            1 | 2 => ViewD::DynText(self.xexpr(lc)),
+            3 => ViewD::Elem(*self.r.pick(TAGS), self.xattrs(lc), Box::new(self.xview(depth - 1, lc))),
+            4 | 5 => ViewD::Seq(Box::new(self.xview(depth - 1, lc)), Box::new(self.xview(depth - 1, lc))),
+            6 => ViewD::Either(self.xexpr(lc), Box::new(self.xregion(depth - 1, false)), Box::new(self.xregion(depth - 1, false))),
+            7 | 8 => ViewD::Show(self.xexpr(lc), Box::new(self.xregion(depth - 1, false)), Box::new(self.xregion(depth - 1, false))),
+            9 | 10 => self.xscope(depth - 1, lc),
+            11 => ViewD::Elem("ul", vec![], Box::new(ViewD::For(self.xexpr(lc), self.xlists()))),
+            _ => {
+                let sel = self.xexpr(lc);
+                let lists = self.xlists();
+                ViewD::Elem("ul", self.xattrs(lc), Box::new(ViewD::ForR(sel, lists, Box::new(self.xregion(depth - 1, true)))))
+            }
+        }
+    }
+
+    /// a mounted view with component-local state: mostly a list with rows of their own
+    fn xtop(&mut self, depth: usize) -> ViewD {
+        match self.r.below(4) {
+            0 => self.xregion(depth, false),
+            _ => {
+                let mut lc = Lc::default();
+                let sel = self.dyn_expr();
+                let lists = self.xlists();
+                let list = ViewD::Elem("ul", vec![], Box::new(ViewD::ForR(sel, lists, Box::new(self.xregion(depth.saturating_sub(1), true)))));
+                match self.r.below(3) {
+                    0 => list,
+                    1 => ViewD::Seq(Box::new(self.xview(depth.saturating_sub(1), &mut lc)), Box::new(list)),
+                    _ => ViewD::Either(self.dyn_expr(), Box::new(list), Box::new(self.xregion(depth.saturating_sub(1), false))),
+                }
+            }
+        }
+    }
+
     fn view(&mut self, depth: usize) -> ViewD {
         if depth == 0 {
             return match self.r.below(4) {
@@ -153,7 +359,7 @@ fn has_susp(v: &ViewD) -> bool {
     match v {
         ViewD::Susp(..) => true,
         ViewD::Text(_) | ViewD::Unit | ViewD::DynText(_) | ViewD::For(..) => false,
-        ViewD::Elem(_, _, k) | ViewD::Errb(_, k) => has_susp(k),
+        ViewD::Elem(_, _, k) | ViewD::Errb(_, k) | ViewD::ForR(_, _, k) | ViewD::Scope(_, _, k) => has_susp(k),
         ViewD::Seq(a, b) | ViewD::Either(_, a, b) | ViewD::Show(_, a, b) => has_susp(a) || has_susp(b),
     }
 }
@@ -189,9 +395,12 @@ fn random_case(g: &mut G, name: &str, out: &mut String) {
         g.defs.push(Def::Memo(b));
     }
     let depth = g.r.range(1, 3);
-    let view = g.top_view(depth);
+    g.next_sid = 0;
+    g.sig_sids.clear();
+    let view = if g.r.chance(1, 4) { g.xtop(depth) } else { g.top_view(depth) };
     emit_prog(out, name, &g.defs, &view);
     let sigs = sig_ids(&g.defs);
+    let lsigs = g.sig_sids.clone();
     // Suspense: the executor always runs to idle between writes (partial progress of an async derived and
     // of the Suspend future that awaits it is C10's subject: F-C10-1; a disposal while a Suspend future is
     // pending panics in the leftover task, see props/C04.known)
@@ -207,6 +416,12 @@ fn random_case(g: &mut G, name: &str, out: &mut String) {
     for w in 0..writes {
         if dispose_at == Some(w) {
             writeln!(out, "dispose").unwrap();
+        }
+        if !lsigs.is_empty() && g.r.chance(1, 3) {
+            // a write through a kept handle; the executor then runs to idle (see `lexpr`)
+            writeln!(out, "setl {} {}", *g.r.pick(&lsigs), g.r.below(5) as i64 - 1).unwrap();
+            writeln!(out, "idle").unwrap();
+            continue;
         }
         let s = *g.r.pick(&sigs);
         writeln!(out, "set {s} {}", g.r.below(5) as i64 - 1).unwrap();
@@ -299,7 +514,7 @@ fn exhaustive_cases(out: &mut String) -> usize {
 pub fn generate(seed: u64, n: usize, _tier: &str) -> String {
     let mut out = String::new();
     let nx = exhaustive_cases(&mut out);
-    let mut g = G { r: Rng::new(seed), defs: vec![] };
+    let mut g = G { r: Rng::new(seed), defs: vec![], next_sid: 0, sig_sids: vec![] };
     for i in 0..n.saturating_sub(nx).max(1) {
         random_case(&mut g, &format!("g{i}"), &mut out);
     }
@@ -324,6 +539,7 @@ fn expr_shadowed(defs: &[Def], e: &Expr) -> bool {
                 reads_in_order(t, out);
                 reads_in_order(f, out)
             }
+            Expr::Key | Expr::Loc(_) => {}
         }
     }
     fn sources(defs: &[Def], i: usize, out: &mut BTreeSet<usize>) {
@@ -406,6 +622,16 @@ fn view_tags(defs: &[Def], v: &ViewD, under_dyn: bool, tags: &mut BTreeSet<&'sta
         ViewD::For(sel, _) => {
             tags.insert("for");
             on_expr(sel, tags)
+        }
+        ViewD::ForR(sel, _, row) => {
+            tags.insert("for");
+            tags.insert("rows");
+            on_expr(sel, tags);
+            view_tags(defs, row, true, tags)
+        }
+        ViewD::Scope(_, d, kid) => {
+            tags.insert(if matches!(d, LDef::Memo(_)) { "local-memo" } else { "local-signal" });
+            view_tags(defs, kid, under_dyn, tags)
         }
         ViewD::Susp(e, a) => {
             tags.insert("suspense");
